@@ -29,4 +29,29 @@ theorem version_eq_absent (d : Dict) (p : Int) (h : d.get? kPrbType = Option.non
   rw [h]
   cases h1 : d.has kTypeEnabled <;> simp [b2i, vname, Version.name]
 
+/-! ### `_get_type_from_meta` -/
+
+def tname : STyp → String
+  | .lf => "lf" | .ap => "ap" | .nidq => "nidq"
+
+/-- an entry of `snsApLfSy` as the integer tests of the source see it (`== 0` / `!= 0`) -/
+def z (x : Num) : Int := if isZero x then 0 else 1
+
+/-- a list-valued `snsApLfSy` (every imec header): the decision of the source = the model's `typeOf`
+(the third test of the source, `snsApLfSy == [-1, -1, -1] and …`, is false for a parsed list) -/
+theorem stream_type_imec_eq (d : Dict) (x0 x1 : Num) (rest : List Num)
+    (h : d.get? kApLfSy = some (.list (x0 :: x1 :: rest))) :
+    Except.ok (Src.C09.stream_type_imec (z x0) (z x1)) = (typeOf d).map (·.map tname) := by
+  unfold Src.C09.stream_type_imec typeOf
+  rw [h]
+  cases h0 : isZero x0 <;> cases h1 : isZero x1 <;> simp [z, h0, h1, tname, Except.map]
+
+/-- `snsApLfSy` absent (its default `[-1, -1, -1]`): "nidq" exactly when `typeThis` is `nidq` -/
+theorem stream_type_nidq_eq (d : Dict) (h : d.get? kApLfSy = Option.none) :
+    Except.ok (if typeThisIs d "nidq".toList then Src.C09.stream_type_nidq (-1) (-1) else Src.C09.stream_type_imec (-1) (-1))
+      = (typeOf d).map (·.map tname) := by
+  unfold Src.C09.stream_type_nidq Src.C09.stream_type_imec typeOf
+  rw [h]
+  cases typeThisIs d "nidq".toList <;> simp [tname, Except.map]
+
 end IblVerif.Tie.C09
